@@ -235,3 +235,18 @@ PROPS['C08'] = dict(
     level_text='Proof (partial): for the terminal productions, every spelling is decoded to what it denotes (C08_iriref_every_spelling, C08_short_string_every_spelling, C08_local_name_every_spelling, C08_numeric_every_token); productions above the token level by grammar-directed exploration with a denotation oracle.',
     level_note='Fix made while building this check: "[ :p :o ] :q :r ; :s :t ." (predicate list continued after a blank node property list subject) was rejected by both decoders.',
 )
+
+PROPS['C20'] = dict(
+    families=[dict(name='c20-xsd', quick=60000, thorough=3000000)],
+    slice=40,
+    rule='the 28 mapped datatypes in turn; per datatype: canonical lexical forms of values the Go type represents (range ends of every integer type, 2^63, 2^64-1, dyadic decimals, INF/-INF/NaN, extreme doubles, leap days, fractional seconds), further valid forms (signs, leading zeros, white space to collapse, time zone offsets up to 14:00, 24:00:00, year 0000 and beyond 9999), listed forms just outside the lexical space, and one or two random edits (insert/delete/replace from an alphabet of signs, digits, separators, letters, white space) of any of them; '
+         'oracles against the harness\' own reading of the XML Schema 1.1 lexical grammars: acceptance only inside the lexical space (and value range), acceptance of every canonical form, datatype of the produced literal, produced lexical form valid, same value (integers and decimals exactly, floats by bit pattern, binaries by octets, dates and times by normalised text, durations by months and seconds), mapping the produced literal again gives the same literal, TermEquals true for the own literal, false for another lexical form and for another datatype; '
+         'model-backed: boolean, the nine integer types and hexBinary through the Gallina model of the mapping function (acceptance and canonical form)',
+    trusted_base=['model/Xsd.v: xsdutil.WhiteSpaceCollapse and strconv.ParseInt/ParseUint written out with their 64-bit overflow guards (Go standard library, tied by the K/C20 correspondences through the Map functions)',
+                  'the harness\' regular expressions for the 28 lexical spaces and its value comparisons'],
+    assumptions=['decimal/float/double values, date/time and duration types have no Gallina model of their value mapping (strconv.ParseFloat, time.Parse): decided by the oracles',
+                 'xsd:integer is mapped to an int64: lexical forms beyond that range are valid but not representable, and their rejection is not counted'],
+    explanation='theorems: the modelled ParseInt/ParseUint accept exactly the integer lexical space within the bit size and return the value; every representable value\'s canonical form is accepted again with the same value (idempotent canonicalisation); boolean likewise; model = implementation on generated strings; grammar and value oracles for all 28 datatypes',
+    level_text='Proof for boolean and the integer family (C20_signed_accepts, C20_parse_uint_spec, C20_signed_canonical, C20_unsigned_canonical, C20_boolean, C20_boolean_accepts) over all strings and all values of the type; exploration with grammar and value oracles for the other datatypes.',
+    level_note='Eight fixes made while building this check (xsd:long bit size, unsignedLong formatting, ParseFloat leniency, INF/NaN spelling, unchecked binaries, g* lexical forms, date/time leniency and dropped fractions, duration grammar). One known finding: fractional duration components, pinned by the repository\'s own test.',
+)
